@@ -104,6 +104,7 @@ def program_src(prog):
         o.append("        #[sv::msg(exec)]\n"
                  "        fn fire(&self, ctx: ExecCtx, h: String, recv: String, val: u32) -> Result<Response, ContractError> {\n"
                  "            rec::touch(ctx.deps.storage, \"fire\");\n"
+                 "            rec::note_target(ctx.deps.storage, &recv);\n"
                  "            let built = build(&h, &recv, val);\n"
                  "            rec::chain_built(\"%s\", &h, &built);\n"
                  "            match built {\n"
